@@ -6,6 +6,7 @@ use crate::runner::{run_part, Part, Tier};
 pub mod c04;
 pub mod c05;
 pub mod c06;
+pub mod c10;
 pub mod c12;
 pub mod c13;
 pub mod c14;
@@ -13,6 +14,7 @@ pub mod c15;
 pub mod util;
 pub mod c16;
 pub mod c17;
+pub mod c18;
 pub mod c19;
 
 /// All generated-search parts of a property (E1 parts; E2/X parts are driven by the property's own `check`).
@@ -21,6 +23,7 @@ pub fn parts(prop: &str) -> Vec<Box<dyn Part>> {
         "C04" => c04::parts(),
         "C05" => c05::parts(),
         "C06" => c06::parts(),
+        "C10" => c10::parts(),
         "C12" => c12::parts(),
         "C13" => c13::parts(),
         "C14" => c14::parts(),
@@ -32,7 +35,7 @@ pub fn parts(prop: &str) -> Vec<Box<dyn Part>> {
     }
 }
 
-pub const ALL: [&str; 10] = ["C04", "C05", "C06", "C12", "C13", "C14", "C15", "C16", "C17", "C19"];
+pub const ALL: [&str; 12] = ["C04", "C05", "C06", "C10", "C12", "C13", "C14", "C15", "C16", "C17", "C18", "C19"];
 
 pub fn assumptions(prop: &str) -> Vec<String> {
     let mut v = vec![
@@ -52,6 +55,7 @@ pub fn check(prop: &str, tier: Tier, seed: u64, known: &Known) -> CheckResult {
         res.parts.push(run_part(p.as_ref(), tier, seed, known));
     }
     match prop {
+        "C18" => c18::run(&mut res, tier, seed, known),
         "C19" => c19::extra_parts(&mut res, tier, seed, known),
         _ => {}
     }
@@ -84,6 +88,7 @@ pub fn replay_file(prop: &str, file: &str, known: &Known, strict: bool) -> Resul
 fn replay_special(prop: &str, part: &str, tape: &[u16], known: &Known, strict: bool) -> Result<Option<String>, String> {
     match (prop, part) {
         ("C19", "cross-process") => c19::replay_cross(tape, known, strict),
+        ("C18", "backend-diff") => c18::replay(tape, known),
         _ => Err(format!("no part {} in {}", part, prop)),
     }
 }
